@@ -2,7 +2,7 @@
 """Generate /verif/seeded/RESULTS.md from the meta.json files written by seedtest.py."""
 import glob, json, os
 rows = []
-for d in sorted(glob.glob("/verif/seeded/C*-m*")):
+for d in sorted(x for x in glob.glob("/verif/seeded/C*-m*") if not x.endswith(".first")):
     mp = os.path.join(d, "meta.json")
     if not os.path.exists(mp):
         continue
@@ -18,6 +18,11 @@ for d in sorted(glob.glob("/verif/seeded/C*-m*")):
         kinds = sorted({b["kind"] for b in m["broken_obligations"]})
         how += " (also broken: " + ", ".join(kinds) + ")"
     note = m.get("note", "")
+    first = d + ".first/meta.json"
+    if os.path.exists(first):
+        f0 = json.load(open(first))
+        note = ("first run: " + f0.get("detected_by", "?").replace("./check ", "") +
+                (" (" + f0.get("first_run_note", "") + ")" if f0.get("first_run_note") else "") + "; check strengthened, re-run shown. " + note)
     rows.append((name, m.get("summary", "")[:150].replace("|", "/"), det.replace("./check ", ""), how.replace("|", "/"), note))
 with open("/verif/seeded/RESULTS.md", "w") as f:
     f.write("# Seeded property-breaking changes and what the checks report\n\n")
